@@ -49,7 +49,9 @@ func assertedMsgType(e *ir.Expr) string {
 // typeSwitchCases: the repo message types f (or a helper it calls, e.g. a per-message predicate) type-asserts.
 func typeSwitchCases(c *Ctx, f *ssa.Function) map[string]bool {
 	out := map[string]bool{}
-	for g := range c.W.Reachable([]*ssa.Function{f}) {
+	// (what *this* function recognises: its own code, its static callees and the callbacks it names — not every
+	// callback some other caller hands to a helper they share)
+	for g := range c.W.ReachableNoDynamic([]*ssa.Function{f}) {
 		if c.W.IsGenerated(g) {
 			continue
 		}
